@@ -57,6 +57,14 @@ fn rand_bytes(ctx: &mut Ctx, n: usize) -> Vec<u8> {
     v
 }
 
+/// A record of `ident` advertising `addr` (either address family).
+pub fn rec_at(ident: usize, seq: u64, addr: SocketAddr, pad: u16) -> Enr {
+    match addr.ip() {
+        IpAddr::V4(v) => ident::record(ident::RecSpec { ident, seq, ip4: Some((v.octets(), addr.port())), ip6: None, pad }),
+        IpAddr::V6(v) => ident::record(ident::RecSpec { ident, seq, ip4: None, ip6: Some((v.octets(), addr.port())), pad }),
+    }
+}
+
 pub struct Adversary {
     pub ident: usize,
     pub key: CombinedKey,
@@ -70,11 +78,7 @@ impl Adversary {
         Adversary { ident, key: i.key(), id: i.id, addr }
     }
     pub fn record(&self, seq: u64, addr: SocketAddr) -> Enr {
-        let ip = match addr.ip() {
-            IpAddr::V4(v) => v.octets(),
-            _ => [0; 4],
-        };
-        ident::record(ident::RecSpec { ident: self.ident, seq, ip4: Some((ip, addr.port())), ip6: None, pad: 0 })
+        rec_at(self.ident, seq, addr, 0)
     }
 }
 
@@ -135,8 +139,15 @@ pub fn run_c01(ctx: &mut Ctx) {
 async fn c01_async(ctx: &mut Ctx) {
     let n_honest = 2 + ctx.tape.choose(2) as usize; // V=0, X=1, maybe Y=2
     let mut w: HWorld<X> = HWorld::new(20_000);
+    // a fifth of the runs happen on an IPv6-only network
+    let v6 = ctx.tape.choose(5) == 0;
+    if v6 {
+        ctx.count("ipv6_runs");
+        w.attacker_addrs = vec!["[fd00:9::1]:30303".parse().unwrap(), "[fd00:9::2]:30304".parse().unwrap()];
+    }
     for i in 0..n_honest {
         let mut c = NodeCfg::new(8 + i);
+        c.v6 = v6;
         c.enr_seq = 1 + ctx.tape.choose(3) as u64 * 2;
         c.request_timeout_ms = *ctx.tape.pick(&[1000u64, 300]);
         // sometimes a genuine peer's record advertises another port than it really sends from
@@ -162,11 +173,7 @@ async fn c01_async(ctx: &mut Ctx) {
         0 => None,
         k => {
             let a = w.attacker_addrs[0];
-            let ip = match a.ip() {
-                IpAddr::V4(v) => v.octets(),
-                _ => [0; 4],
-            };
-            Some(ident::record(ident::RecSpec { ident: adv.ident, seq: 1 + k as u64, ip4: Some((ip, a.port())), ip6: None, pad: 1 }))
+            Some(rec_at(adv.ident, 1 + k as u64, a, 1))
         }
     };
     let mut last_self_attached: Option<Enr> = None;
@@ -412,6 +419,12 @@ async fn c01_async(ctx: &mut Ctx) {
                 }
                 // C12 handshake half: incoming Established => record address equals the observed source
                 if let HandlerOut::Established(enr, addr, ConnectionDirection::Incoming) = &ev {
+                    if let (Some(adv6), SocketAddr::V6(obs6)) = (enr.udp6_socket(), addr) {
+                        if (adv6.ip(), adv6.port()) != (obs6.ip(), obs6.port()) {
+                            ctx.fail("c12.established-address-mismatch", format!("n{node} reported Established(Incoming) for {} with record address {adv6} but packets came from {obs6}", short_id(&enr.node_id())), &[]);
+                            break;
+                        }
+                    }
                     if let (Some(adv4), SocketAddr::V4(obs4)) = (enr.udp4_socket(), addr) {
                         if adv4 != *obs4 {
                             ctx.fail("c12.established-address-mismatch", format!("n{node} reported Established(Incoming) for {} with record address {adv4} but packets came from {obs4}", short_id(&enr.node_id())), &[]);
@@ -447,17 +460,13 @@ async fn c01_async(ctx: &mut Ctx) {
                             // another identity: a third honest node if there is one, else an identity of the adversary
                             let other = (0..n_honest).find(|j| *j != node && w.node_by_id(&from.node_id) != Some(*j));
                             let my_addr = w.nodes[node].addr;
-                            let ip = match my_addr.ip() {
-                                IpAddr::V4(v) => v.octets(),
-                                _ => [0; 4],
-                            };
                             let foreign: Enr = match (lie_kind, other) {
                                 // the other node's genuine record (advertises the other node's address)
                                 (0, Some(j)) => w.nodes[j].enr.clone(),
                                 // a genuine record of the other node that carries no address
                                 (1, Some(j)) => ident::record(ident::RecSpec { ident: w.nodes[j].cfg.ident, seq: w.nodes[j].enr.seq() + 1, ip4: None, ip6: None, pad: 0 }),
                                 // a second identity (keys held by the liar) advertising the liar's own address
-                                (2, _) => ident::record(ident::RecSpec { ident: adv.ident, seq: 2, ip4: Some((ip, my_addr.port())), ip6: None, pad: 0 }),
+                                (2, _) => rec_at(adv.ident, 2, my_addr, 0),
                                 // a second identity without any address
                                 _ => ident::record(ident::RecSpec { ident: adv.ident, seq: 2, ip4: None, ip6: None, pad: 0 }),
                             };
@@ -492,7 +501,7 @@ fn note_delivery<Y>(ledger: &mut ProofLedger, w: &HWorld<Y>, to: usize, src: Soc
 pub fn craft_handshake<Y>(ctx: &mut Ctx, w: &HWorld<Y>, adv: &Adversary, plan: &Plan, challenge_data: &[u8], src: SocketAddr, genuine: &BTreeMap<usize, (Vec<u8>, Vec<u8>)>) -> Option<Vec<u8>> {
     let v = &w.nodes[plan.victim];
     let x = &w.nodes[plan.claimed];
-    let victim_contact = NodeContact::try_from_enr(v.enr.clone(), IpMode::default()).ok()?;
+    let victim_contact = NodeContact::try_from_enr(v.enr.clone(), if v.cfg.v6 { IpMode::Ip6 } else { IpMode::default() }).ok()?;
     if plan.as_self {
         // a genuine handshake under the attacker's own id; only the advertised address varies:
         // record 0/1: the real source, 2: none, 3: somebody else's address
